@@ -27,6 +27,22 @@ SIGS = ['', 's', 'i', 'si', 'as', '(is)', 'a{ss}', 'sv', 'ss', 'ai', 'x', 'sd', 
 WELL_KNOWN = 'org.verif.Exporter'
 
 
+class _Outer:
+    class VerifErr(Exception):
+        """Same class NAME as the module-level one, defined inside another class."""
+
+
+def _local_error_class():
+    class VerifErr(Exception):
+        """Same class name, local to a function."""
+    return VerifErr
+
+
+def err_class(tok):
+    """The error reply is named after the exception's class name wherever that class is defined."""
+    return (VerifErr, _Outer.VerifErr, _local_error_class())[len(str(tok)) % 3]
+
+
 class VerifErr(Exception):
     pass
 
@@ -169,9 +185,9 @@ class Run:
         if kind in ('value', 'echo'):
             return value()
         if kind == 'raise':
-            raise VerifErr('failed ' + str(tok))
+            raise err_class(tok)('failed ' + str(tok))
         if kind == 'raise-named':
-            e = VerifErr('named ' + str(tok))
+            e = err_class(tok)('named ' + str(tok))
             e.dbusErrorName = 'org.verif.Error.Named'
             raise e
         d = defer.Deferred()
@@ -292,7 +308,7 @@ class Run:
                 if k == 'deferred':
                     d.callback(val)
                 else:
-                    d.errback(VerifErr('late ' + str(tok)))
+                    d.errback(err_class(tok)('late ' + str(tok)))
             crashes = net.crashes() + [(c.index, e) for c in net.clients for e in c.client.crashes]
             if crashes:
                 w['crash'] = repr(crashes[0])
